@@ -1,10 +1,12 @@
 package main
 
 import (
+	"encoding/json"
 	"fmt"
 	"math"
 	"math/rand"
 	"path/filepath"
+	"reflect"
 	"sort"
 	"strconv"
 	"strings"
@@ -29,6 +31,9 @@ type fence struct {
 	area     verifapi.FenceArea
 	detect   []string // nil = no DETECT clause
 	where    *[2]float64
+	wherein  []float64 // WHEREIN speed n v1 .. vn
+	evalGT   *float64  // WHEREEVAL "return FIELDS.speed > v" 0, or with evalArgv: "... > tonumber(ARGV[1])" 1 v
+	evalArgv bool
 	match    string
 	commands []string
 	nofields bool
@@ -44,10 +49,14 @@ type obj struct {
 	lat, lon float64
 	speed    float64
 	str      bool
+	gj       string  // != "": SET ... OBJECT <geojson> (a line or a polygon around lat, lon)
 	half     float64 // > 0: a rectangle object SET ... BOUNDS lat-half lon-half lat+half lon+half
 }
 
 func (o *obj) spec() verifapi.FenceObj {
+	if o.gj != "" {
+		return verifapi.FenceObj{Kind: "json", JSON: o.gj}
+	}
 	if o.half > 0 {
 		return verifapi.FenceObj{Kind: "bounds", MinLat: o.lat - o.half, MinLon: o.lon - o.half, MaxLat: o.lat + o.half, MaxLon: o.lon + o.half}
 	}
@@ -113,6 +122,17 @@ func (f *fence) args() []string {
 	if f.match != "" {
 		a = append(a, "MATCH", f.match)
 	}
+	if f.wherein != nil {
+		a = append(a, "WHEREIN", "speed", strconv.Itoa(len(f.wherein)))
+		for _, v := range f.wherein {
+			a = append(a, ff(v))
+		}
+	}
+	if f.evalGT != nil && f.evalArgv {
+		a = append(a, "WHEREEVAL", "return FIELDS.speed > tonumber(ARGV[1])", "1", ff(*f.evalGT))
+	} else if f.evalGT != nil {
+		a = append(a, "WHEREEVAL", "return FIELDS.speed > "+ff(*f.evalGT), "0")
+	}
 	if f.where != nil {
 		a = append(a, "WHERE", "speed", ff(f.where[0]), ff(f.where[1]))
 	}
@@ -158,6 +178,18 @@ func (f *fence) flt(o *obj) bool {
 	if o == nil {
 		return false
 	}
+	if f.wherein != nil {
+		in := false
+		for _, v := range f.wherein {
+			in = in || v == o.speed
+		}
+		if !in {
+			return false
+		}
+	}
+	if f.evalGT != nil && !(o.speed > *f.evalGT) {
+		return false
+	}
 	return f.where == nil || (o.speed >= f.where[0] && o.speed <= f.where[1])
 }
 
@@ -197,6 +229,8 @@ func wireCommand(k string) string {
 // abstract case of (fence, write) in the driver's notation, plus the pieces the oracle needs
 type acase struct {
 	req     []string
+	oldTi   string
+	newTi   string
 	cmd     string
 	oldT    string
 	newT    string
@@ -218,6 +252,10 @@ func abstract(f *fence, w write) acase {
 	}
 	c.newT = objT
 	c.oldT = f.otest(w.old)
+	c.newTi, c.oldTi = "-", f.otest(w.old)
+	if w.kind != "drop" {
+		c.newTi = f.otest(&w.o)
+	}
 	c.glob = f.match == "" || func() bool { ok, _ := verifapi.GlobMatch(f.match, w.id); return ok }()
 	spatial := !w.o.str
 	if w.old != nil && !w.old.str && !w.o.str && w.kind == "set" {
@@ -226,7 +264,7 @@ func abstract(f *fence, w write) acase {
 		c.cross = verifapi.FenceCross(f.area, la1, lo1, la2, lo2)
 	}
 	c.guardOK = c.glob && spatial && !(c.cmd == "fset" && f.nofields) && !f.count && f.accepts(c.cmd)
-	c.req = []string{"fm", model.B(f.accepts(c.cmd)), f.dbits(), mcmd, objT, c.oldT, model.B(c.glob), model.B(spatial),
+	c.req = []string{"fm", model.B(f.accepts(c.cmd)), f.dbits(), mcmd, c.newTi, c.oldTi, model.B(c.glob), model.B(spatial),
 		model.B(f.nofields), model.B(c.cross), model.B(!f.count)}
 	return c
 }
@@ -476,6 +514,20 @@ func (e *env) round(n, nOther int) {
 	pick := func() []string { return all[rng.Intn(len(all))] }
 	add(&fence{name: st.key + "-where", sink: "chan", cmd: mainCmd, area: st.main, where: &[2]float64{1, 50}, role: "filter"})
 	add(&fence{name: st.key + "-where2", sink: "chan", cmd: mainCmd, area: st.main, where: &[2]float64{1, 50}, detect: pick(), role: "filter"})
+	wi := []float64{}
+	for v := 2.0; v <= 50; v += 2 {
+		wi = append(wi, v) // the even speeds
+	}
+	gt := 25.0
+	add(&fence{name: st.key + "-wherein", sink: "chan", cmd: mainCmd, area: st.main, wherein: wi, role: "filter"})
+	add(&fence{name: st.key + "-wherein2", sink: "chan", cmd: mainCmd, area: st.main, wherein: wi, where: &[2]float64{1, 30}, detect: pick(), role: "filter"})
+	add(&fence{name: st.key + "-eval", sink: "chan", cmd: mainCmd, area: st.main, evalGT: &gt, role: "filter"})
+	// the threshold passed through ARGV (lost after SETCHAN before proposed_fixes/C05-whereeval-argv.diff)
+	add(&fence{name: st.key + "-evalargv", sink: "chan", cmd: mainCmd, area: st.main, evalGT: &gt, evalArgv: true, role: "filter"})
+	add(&fence{name: st.key + "-evalargvlive", sink: "live", cmd: mainCmd, area: st.main, evalGT: &gt, evalArgv: true, detect: pick(), role: "filter"})
+	add(&fence{name: st.key + "-eval2", sink: "chan", cmd: mainCmd, area: st.main, evalGT: &gt, detect: pick(), role: "filter"})
+	add(&fence{name: st.key + "-evalhook", sink: "hook", cmd: mainCmd, area: st.main, evalGT: &gt, role: "filter"})
+	add(&fence{name: st.key + "-evallive", sink: "live", cmd: mainCmd, area: st.main, wherein: wi, role: "filter"})
 	add(&fence{name: st.key + "-match", sink: "chan", cmd: mainCmd, area: st.main, match: "t*", detect: pick(), role: "filter"})
 	add(&fence{name: st.key + "-cmds", sink: "chan", cmd: mainCmd, area: st.main, commands: []string{"set", "del"}, role: "filter"})
 	add(&fence{name: st.key + "-cmds2", sink: "chan", cmd: mainCmd, area: st.main, commands: []string{"fset", "drop"}, detect: pick(), role: "filter"})
@@ -844,6 +896,20 @@ func (e *env) script(st *roundState) {
 			old = &q
 		}
 		geom := []string{"POINT", ff(lat), ff(lon)}
+		switch id { // a line and a triangle, each about the size of the main area
+		case "l9":
+			a := rng.Float64() * math.Pi
+			d := st.size * (0.3 + rng.Float64())
+			o.gj = fmt.Sprintf(`{"type":"LineString","coordinates":[[%s,%s],[%s,%s]]}`,
+				ff(lon-d*math.Cos(a)), ff(lat-d*math.Sin(a)), ff(lon+d*math.Cos(a)), ff(lat+d*math.Sin(a)))
+		case "p9":
+			d := st.size * (0.2 + 0.8*rng.Float64())
+			o.gj = fmt.Sprintf(`{"type":"Polygon","coordinates":[[[%s,%s],[%s,%s],[%s,%s],[%s,%s]]]}`,
+				ff(lon-d), ff(lat-d), ff(lon+d), ff(lat-d), ff(lon), ff(lat+d), ff(lon-d), ff(lat-d))
+		}
+		if o.gj != "" {
+			geom = []string{"OBJECT", o.gj}
+		}
 		if o.half > 0 {
 			geom = []string{"BOUNDS", ff(lat - o.half), ff(lon - o.half), ff(lat + o.half), ff(lon + o.half)}
 		}
@@ -925,7 +991,7 @@ func (e *env) script(st *roundState) {
 	if e.cfg.Tier == "thorough" || e.cfg.Search {
 		nrand = 80
 	}
-	ids := []string{"t1", "t3", "t4", "v6", "u7", "t8", "r7", "t8", "r7"}
+	ids := []string{"t1", "t3", "t4", "v6", "u7", "t8", "r7", "t8", "r7", "l9", "p9", "l9", "p9"}
 	for i := 0; i < nrand; i++ {
 		id := ids[rng.Intn(len(ids))]
 		_, exists := st.objs[id]
@@ -1169,7 +1235,8 @@ func (e *env) check(st *roundState, w write, msgs []fencex.Msg, live map[string]
 				doc = nil
 			}
 			if strings.Join(gt, ",") != strings.Join(doc, ",") {
-				r.Fail(hx.Failure{Kind: "oracle", Signature: "fence-doc-" + strings.ReplaceAll(transition(c), ":", "-"),
+				sig := "fence-doc-" + strings.ReplaceAll(transition(c), ":", "-")
+				r.Fail(hx.Failure{Kind: "oracle", Signature: sig,
 					What: fmt.Sprintf("fence notifications %v for a %s; the documented rule gives %v (DETECT %v, %d other hooks)", gt, transition(c), doc, f.detect, st.nOther),
 					Case: cs, Impl: gt})
 			}
@@ -1202,7 +1269,12 @@ func (e *env) check(st *roundState, w write, msgs []fencex.Msg, live map[string]
 			}
 			if bad == "" && (c.cmd == "set" || c.cmd == "fset" || c.cmd == "expire") {
 				lat, lon, ok := fencex.PointCoords(m.Object)
-				if w.o.half > 0 {
+				if w.o.gj != "" {
+					var a, b interface{}
+					if json.Unmarshal(m.Object, &a) != nil || json.Unmarshal([]byte(w.o.gj), &b) != nil || !reflect.DeepEqual(a, b) {
+						bad = "object is not the current geometry"
+					}
+				} else if w.o.half > 0 {
 					if !strings.Contains(string(m.Object), `"Polygon"`) || !strings.Contains(string(m.Object), ff(w.o.lat-w.o.half)) {
 						bad = "object is not the current rectangle"
 					}
@@ -1256,6 +1328,9 @@ func describeWrite(key string, w write) string {
 	switch w.kind {
 	case "set":
 		s := fmt.Sprintf("SET %s %s FIELD speed %s POINT %s %s", key, w.id, ff(w.o.speed), ff(w.o.lat), ff(w.o.lon))
+		if w.o.gj != "" {
+			s = fmt.Sprintf("SET %s %s FIELD speed %s OBJECT %s", key, w.id, ff(w.o.speed), w.o.gj)
+		}
 		if w.o.half > 0 {
 			s = fmt.Sprintf("SET %s %s FIELD speed %s BOUNDS %s %s %s %s", key, w.id, ff(w.o.speed), ff(w.o.lat-w.o.half), ff(w.o.lon-w.o.half), ff(w.o.lat+w.o.half), ff(w.o.lon+w.o.half))
 		}
